@@ -371,3 +371,267 @@ def M6(vc):
     vc.canary('canary.never_raises', raised is None)
     vc.canary('canary.always_none', got is None)
     return ('operation', got, type(raised).__name__)
+
+
+# =============================================================================================== M3
+from kopf._core.engines import admission          # noqa: E402
+from kopf._core.intents import filters           # noqa: E402
+from kopf._cogs.structs import references        # noqa: E402
+
+RES = references.Resource
+M3_UNIVERSE = [RES('kopf.dev', 'v1', 'kopfexamples', preferred=True), RES('kopf.dev', 'v1beta1', 'kopfexamples', preferred=False),
+               RES('', 'v1', 'pods'), RES('metrics.k8s.io', 'v1beta1', 'pods')]
+M3_SUBSETS = [frozenset(c) for n in range(5) for c in itertools.combinations(range(4), n)]
+F_SUBRESOURCE_STAR = 'F-C18-5'
+
+
+def _m3_find_real(vc):
+    """find_resource with the REAL references.Selector over a universe of 4 resources (two versions of one kind, a
+    core-v1 kind and its namesake in another group): every subset served, every (group, version, plural) asked."""
+    served = {M3_UNIVERSE[i] for i in resolve(vc.fin('webhook_resources', M3_SUBSETS))}
+    group = resolve(vc.fin('group', ['kopf.dev', '', 'metrics.k8s.io', 'other.dev']))
+    version = resolve(vc.fin('version', ['v1', 'v1beta1']))
+    plural = resolve(vc.fin('resource', ['kopfexamples', 'pods']))
+    request = {'request': {'uid': 'u', 'resource': {'group': group, 'version': version, 'resource': plural}}}
+    insights = Opaque('insights', webhook_resources=served, watched_resources={M3_UNIVERSE[0], M3_UNIVERSE[2]},
+                      indexed_resources=set(M3_UNIVERSE))
+    ld = vc.load('kopf._core.engines.admission', 'find_resource')
+    got = raised = None
+    try:
+        got = ld.fn(request=request, insights=insights)
+    except admission.WebhookError as e:
+        raised = e
+    wanted = [r for r in served if (r.group, r.version, r.plural) == (group, version, plural)]
+    vc.ensure('found_by_group_version_plural', (got is wanted[0] and raised is None) if wanted else got is None)
+    vc.ensure('unknown_resource_error', isinstance(raised, admission.UnknownResourceError) if not wanted else raised is None)
+    vc.canary('canary.always_found', raised is None)
+    return ('find', len(served), type(raised).__name__)
+
+
+def _m3_find_contract(vc):
+    """find_resource against the CONTRACT of Selector.select (any sub-collection of any size)."""
+    n = vc.nondet(4, 'how many resources the selector selects')
+    selected = [Opaque(f'resource{i}') for i in range(n)]
+    shape = vc.nondet(3, 'the selection is a set / list / tuple')
+    result = [set, list, tuple][shape](selected)
+    made = []
+
+    class Selector:
+        def __init__(self, *a, **kw):
+            made.append(self)
+            self.a, self.kw = a, kw
+
+        def select(self, resources):
+            self.selected_from = resources
+            return result
+    group, version, plural = vc.str('group'), vc.str('version'), vc.str('resource')
+    served = Opaque('webhook_resources')
+    request = {'request': {'uid': 'u', 'resource': {'group': group, 'version': version, 'resource': plural}}}
+    insights = Opaque('insights', webhook_resources=served, watched_resources=Opaque('watched'), indexed_resources=Opaque('indexed'))
+    ld = vc.load('kopf._core.engines.admission', 'find_resource', stubs={'references.Selector': Selector})
+    got = raised = None
+    try:
+        got = ld.fn(request=request, insights=insights)
+    except admission.WebhookError as e:
+        raised = e
+    vc.ensure('found_by_group_version_plural', len(made) == 1 and not made[0].a and sorted(made[0].kw) == ['group', 'plural', 'version'])
+    kw = made[0].kw
+    vc.ensure('found_by_group_version_plural', And(Eq(kw['group'], group), Eq(kw['version'], version), Eq(kw['plural'], plural)))
+    vc.ensure('found_by_group_version_plural', made[0].selected_from is served)
+    vc.ensure('found_by_group_version_plural', (got is selected[0] and raised is None) if n == 1 else got is None)
+    vc.ensure('unknown_resource_error', isinstance(raised, admission.UnknownResourceError) == (n == 0))
+    vc.ensure('ambiguous_resource_error', isinstance(raised, admission.AmbiguousResourceError) == (n > 1))
+    vc.canary('canary.always_found', raised is None)
+    return ('find-by-contract', n, type(raised).__name__)
+
+
+def _callback(value, *a, **kw):
+    return True
+
+
+def _m3_labels(vc):
+    """_build_labels_selector over None / {} / 1..3 criteria with symbolic keys and every kind of criterion."""
+    PRESENT, ABSENT = filters.MetaFilterToken.PRESENT, filters.MetaFilterToken.ABSENT
+    n = vc.nondet(5, 'labels: None / {} / 1..3 criteria')
+    labels, spec = (None if n == 0 else {}), []
+    for i in range(max(0, n - 1)):
+        key = vc.str(f'key{i}')
+        for k in labels:
+            vc.assume(Not(Eq(k, key)), 'mapping keys are distinct')
+        kind = vc.nondet(4, f'criterion{i}: value / PRESENT / ABSENT / callback')
+        if kind == 0:
+            val = vc.str(f'value{i}')           # any string, the empty one included
+            spec.append((key, 'In', val))
+        elif kind == 1:
+            val = PRESENT
+            spec.append((key, 'Exists', None))
+        elif kind == 2:
+            val = ABSENT
+            spec.append((key, 'DoesNotExist', None))
+        else:
+            val = _callback if vc.nondet(2, 'callback: function / lambda') == 0 else (lambda value, **_: False)
+        labels[key] = val
+    ld = vc.load('kopf._core.engines.admission', '_build_labels_selector')
+    snapshot = None if labels is None else dict(labels)
+    got = ld.fn(labels)
+    vc.ensure('labels.input_untouched', labels is None or (list(labels) == list(snapshot) and all(labels[k] is snapshot[k] for k in labels)))
+    vc.ensure('labels.none_when_nothing_expressible', (got is None) == (not spec))
+    vc.canary('canary.always_selector', got is not None)
+    if got is None:
+        return ('labels', n, None)
+    vc.ensure('labels.criteria_as_expressions', isinstance(got, dict) and list(got) == ['matchExpressions']
+              and isinstance(got['matchExpressions'], (list, tuple)) and len(got['matchExpressions']) == len(spec))
+    for e, (key, op, val) in zip(got['matchExpressions'], spec):
+        vc.ensure('labels.criteria_as_expressions', isinstance(e, dict) and Eq(e.get('key'), key) and e.get('operator') == op)
+        if op == 'In':
+            vals = e.get('values')
+            vc.ensure('labels.criteria_as_expressions', isinstance(vals, (list, tuple)) and len(vals) == 1 and Eq(vals[0], val))
+        else:       # Kubernetes: "values" must be empty for Exists / DoesNotExist
+            vc.ensure('labels.criteria_as_expressions', not e.get('values'))
+    vc.ensure('labels.callbacks_omitted', len(got['matchExpressions']) == len(spec))
+    return ('labels', n, len(got['matchExpressions']))
+
+
+M3_OPERATIONS = [None, [], ['UPDATE', 'DELETE'], frozenset({'CONNECT'}), ('CREATE',), list(OPS)]
+
+
+def _m3_handler(vc, tag, selector, *, simple=False):
+    tri = [None, False, True]
+    return handlers.WebhookHandler(
+        id=f'{tag}/fn_x', fn=Opaque('fn'), param=None, errors=None, timeout=None, retries=None, backoff=None,
+        selector=selector, labels=Opaque(f'{tag}.labels'), annotations=None, when=None, field=None, value=None,
+        reason=WT.VALIDATING,
+        operations=None if simple else vc.fin(f'{tag}.operations', M3_OPERATIONS),
+        subresource=None if simple else vc.opt(f'{tag}.subresource', vc.str),
+        persistent=vc.fin(f'{tag}.persistent', tri),
+        side_effects=True if simple else vc.fin(f'{tag}.side_effects', tri),
+        ignore_failures=None if simple else vc.fin(f'{tag}.ignore_failures', tri))
+
+
+def _m3_webhooks(vc):
+    n_handlers = vc.nondet(3, '#handlers')
+    n_res = vc.nondet(3, '#resources') if n_handlers == 1 else 1
+    resources = [RES(vc.str(f'res{j}.group'), vc.str(f'res{j}.version'), vc.str(f'res{j}.plural')) for j in range(n_res)]
+    matches, hs = {}, []
+
+    def mk_selector(tag):
+        if vc.nondet(2, f'{tag}.selector: None / a selector') == 0:
+            return None
+        m = matches[tag] = [vc.bool(f'{tag}.selector.check(res{j})') for j in range(n_res)]
+        return Opaque(f'{tag}.selector', check=lambda r: m[[k for k, x in enumerate(resources) if x is r][0]])
+    if n_handlers >= 1:
+        hs.append(_m3_handler(vc, 'A', mk_selector('A')))
+    if n_handlers == 2:        # the second one varies only in what decides its presence; before or after A
+        b = _m3_handler(vc, 'B', mk_selector('B'), simple=True)
+        hs.insert(vc.nondet(2, 'B after / before A'), b)
+    persistent_only = [None, False, True][vc.nondet(3, 'persistent_only: default / False / True')]
+    suffix = vc.str('name_suffix')
+    client_config = Opaque('client_config')
+    names, configs, selectors = {}, {}, {}
+
+    def _normalize_name(id, suffix=None, **kw):
+        names[id] = Opaque(f'normalized-name({id})', args=(id, suffix, kw)); return names[id]
+
+    def _inject_handler_id(config, id):
+        configs[id] = Opaque(f'client-config-for({id})', args=(config, id)); return configs[id]
+
+    def _build_labels_selector(labels):
+        selectors[id(labels)] = Opaque('labels-selector', args=labels); return selectors[id(labels)]
+    vc.used('admission._normalize_name / _inject_handler_id', 'M4'); vc.used('admission._build_labels_selector', 'M3 (scenario labels)')
+    ld = vc.load('kopf._core.engines.admission', 'build_webhooks', stubs={
+        '_normalize_name': _normalize_name, '_inject_handler_id': _inject_handler_id, '_build_labels_selector': _build_labels_selector})
+    kw = {} if persistent_only is None else {'persistent_only': persistent_only}
+    got = ld.fn(iter(hs) if vc.nondet(2, 'handlers: list / one-shot iterable') else hs,
+                resources=resources, name_suffix=suffix, client_config=client_config, **kw)
+    # ---- one entry per registered handler, in order; on cleanup (persistent_only) only the persistent ones stay
+    expected = [h for h in hs if not persistent_only or tobool_fin(h.persistent)]
+    vc.ensure('webhooks.one_entry_per_handler', isinstance(got, list) and len(got) == len(expected))
+    vc.canary('canary.no_webhooks', len(got) == 0)
+    for e, h in zip(got, expected):
+        tag = h.id[0]
+        vc.ensure('webhooks.one_entry_per_handler', e.get('name') is names.get(h.id) and Eq(names[h.id].args[1], suffix)
+                  and names[h.id].args[0] == h.id)
+        vc.ensure('webhooks.url_carries_handler_id', e.get('clientConfig') is configs.get(h.id)
+                  and configs[h.id].args[0] is client_config and configs[h.id].args[1] == h.id)
+        vc.ensure('webhooks.object_selector_from_labels', e.get('objectSelector') is selectors.get(id(h.labels))
+                  and selectors[id(h.labels)].args is h.labels)
+        vc.ensure('webhooks.policies_as_documented', e.get('sideEffects') == ('NoneOnDryRun' if tobool_fin(h.side_effects) else 'None'))
+        vc.ensure('webhooks.policies_as_documented', e.get('failurePolicy') == ('Ignore' if tobool_fin(h.ignore_failures) else 'Fail'))
+        vc.ensure('webhooks.policies_as_documented', e.get('matchPolicy') == 'Equivalent')
+        t = e.get('timeoutSeconds')
+        vc.ensure('webhooks.accepted_by_kubernetes', isinstance(t, int) and 1 <= t <= 30)
+        arv = e.get('admissionReviewVersions')
+        vc.ensure('webhooks.accepted_by_kubernetes', isinstance(arv, list) and len(arv) >= 1 and set(arv) <= {'v1', 'v1beta1'})
+        # ---- rules: one per served resource the handler's selector matches
+        m = matches.get(tag)
+        want = [] if m is None else [(r, j) for j, r in enumerate(resources) if bool(m[j])]
+        rules = e.get('rules')
+        vc.ensure('webhooks.rule_per_matching_resource', isinstance(rules, list) and len(rules) == len(want))
+        ops = resolve(h.operations)
+        for rule, (r, j) in zip(rules, want):
+            vc.ensure('webhooks.rule_per_matching_resource', len(rule['apiGroups']) == 1 and len(rule['apiVersions']) == 1
+                      and And(Eq(rule['apiGroups'][0], r.group), Eq(rule['apiVersions'][0], r.version)))
+            vc.ensure('webhooks.rule_operations', sorted(rule['operations']) == (sorted(ops) if ops else ['*']))
+            vc.ensure('webhooks.accepted_by_kubernetes', rule.get('scope') in ('*', 'Cluster', 'Namespaced'))
+            got_res = rule['resources']
+            sub = h.subresource
+            if sub is None:
+                vc.ensure('webhooks.rule_subresource', len(got_res) == 1 and Eq(got_res[0], r.plural))
+            else:
+                # docs/admission.rst: a named subresource -> only it; "*" -> the main body AND any subresource.
+                # Kubernetes: "pods/*" are the subresources of pods only, "pods" is the main resource only.
+                star = Eq(sub, '*')
+                has_sub = Or(*[Eq(x, r.plural + '/' + sub) for x in got_res], False)
+                has_main = Or(*[Eq(x, r.plural) for x in got_res], False)
+                vc.ensure('webhooks.rule_subresource', And(has_sub, len(got_res) <= 2))
+                vc.ensure('webhooks.rule_subresource', Implies(Not(star), And(len(got_res) == 1, Not(has_main))))
+                vc.ensure('webhooks.rule_subresource_star_covers_main', Implies(star, has_main),
+                          excuse={F_SUBRESOURCE_STAR: star})
+    return ('webhooks', n_handlers, n_res, len(got))
+
+
+def tobool_fin(x):
+    """truthiness of an (already decided) tri-state field"""
+    return bool(resolve(x))
+
+
+@harness('M3', targets=['kopf._core.engines.admission.find_resource', 'kopf._core.engines.admission.build_webhooks',
+                        'kopf._core.engines.admission._build_labels_selector'], props=['C18'],
+         clauses=['found_by_group_version_plural', 'unknown_resource_error', 'ambiguous_resource_error',
+                  'labels.none_when_nothing_expressible', 'labels.criteria_as_expressions', 'labels.callbacks_omitted', 'labels.input_untouched',
+                  'webhooks.one_entry_per_handler', 'webhooks.url_carries_handler_id', 'webhooks.object_selector_from_labels',
+                  'webhooks.policies_as_documented', 'webhooks.accepted_by_kubernetes', 'webhooks.rule_per_matching_resource',
+                  'webhooks.rule_operations', 'webhooks.rule_subresource', 'webhooks.rule_subresource_star_covers_main'],
+         canaries=['canary.always_found', 'canary.always_selector', 'canary.no_webhooks'],
+         trusted=['references.Selector / Resource run natively in scenario find-real (dataclass equality and hashing)',
+                  'Selector.select(resources): some sub-collection of any size (scenario find-contract)',
+                  'Kubernetes admissionregistration/v1: rules[].resources "x/*" = the subresources of x only, "x" = x only; '
+                  'timeoutSeconds in 1..30; matchExpressions Exists/DoesNotExist carry no values'],
+         assumes=['M3 BOUNDS: webhooks: 0..2 handlers (the second one varies only in `persistent` and its selector), 0..2 served '
+                  'resources with symbolic group/version/plural, symbolic subresource and name suffix; labels: 0..3 criteria '
+                  'with symbolic keys/values; find-real: all subsets of a 4-resource universe'])
+def M3(vc):
+    """
+    How reviews are routed to handlers OUTSIDE the process (the managed webhook configuration) and to a resource inside.
+    find_resource: the review's request.resource {group, version, resource} names exactly one served webhook resource,
+      which is returned; none => UnknownResourceError, several => AmbiguousResourceError (checked with the real Selector
+      over a 4-resource universe, and against the contract of Selector.select for selections of any size).
+    _build_labels_selector (docs/admission.rst "Handler options": labels go to objectSelector; everything but callbacks
+      is supported): one matchExpression per non-callback criterion, in order: "value" -> In [value] (the empty string
+      included), PRESENT -> Exists, ABSENT -> DoesNotExist; callbacks are omitted (they are evaluated in-process);
+      nothing expressible (None, {}, callbacks only) -> None, i.e. no server-side filtering.
+    build_webhooks: exactly one webhook entry per registered handler, in registration order (on cleanup,
+      persistent_only=True: the persistent ones only); its name is the normalized handler id with the managed suffix (M4),
+      its clientConfig is the server's config with THIS handler's id injected (M4) -- so the apiserver calls an endpoint
+      that dispatches to that handler alone; objectSelector from the labels; sideEffects NoneOnDryRun iff side_effects
+      else None, failurePolicy Ignore iff ignore_failures else Fail, matchPolicy Equivalent; timeoutSeconds within
+      Kubernetes' 1..30 and admissionReviewVersions among those kopf parses; one rule per served resource matched by the
+      handler's selector (none for selector None), carrying the resource's group/version, the declared operations or
+      ["*"] when unset/empty, and the plural -- with "/<subresource>" for a named subresource.
+    FINDING F-C18-5 (clause webhooks.rule_subresource_star_covers_main): docs/admission.rst promises that
+      subresource="*" checks "both the main body and any subresource", but the rule says only "<plural>/*", which for
+      Kubernetes means the subresources WITHOUT the main resource: with a managed configuration such a handler is never
+      called for the main body.  Excused class: subresource == "*".
+    """
+    k = vc.nondet(4, 'scenario: find-real / find-contract / labels / webhooks')
+    return [_m3_find_real, _m3_find_contract, _m3_labels, _m3_webhooks][k](vc)
